@@ -176,8 +176,12 @@ void EpollFdEvent::OnEventCallback(uint32_t events, void *obj)
 
     //! 要先复制一份，因为在for中很可能会改动到d->fd_events，引起迭代器失效问题
     auto tmp = d->fd_events;
-    for (auto event : tmp)
-        event->onEvent(tbox_events);
+    for (auto event : tmp) {
+        //! an earlier callback of this loop may have disabled or deleted this event:
+        //! only the ones still in fd_events are alive and enabled
+        if (std::find(d->fd_events.begin(), d->fd_events.end(), event) != d->fd_events.end())
+            event->onEvent(tbox_events);
+    }
 
     if (events)
         LogWarn("unhandle events:%08X, fd:%d", events, d->fd);
